@@ -129,8 +129,3 @@ func GenLemma(prog *Program, l *Lemma) (res *FuncResult) {
 func runExtraEngines(P *Program, id string, pc *PropConfig) ([]*oblRun, []string) {
 	return nil, nil
 }
-
-// tryReplay replays a counterexample on the real code where a replay template exists.
-func tryReplay(P *Program, id string, r *oblRun) (bool, string) {
-	return false, "no executable replay template for this obligation"
-}
